@@ -68,6 +68,13 @@ func (g *generatorv2) GenerateFile(f *file) error {
 	for _, names := range f.Imports {
 		aliases[names[0]] = struct{}{}
 	}
+	// Names declared at package level are taken too: an import added to this
+	// file must not share its name with a package-level declaration.
+	if f.Package != nil && f.Package.Types != nil {
+		for _, name := range f.Package.Types.Scope().Names() {
+			aliases[name] = struct{}{}
+		}
+	}
 
 	fileModifiers := f.modifiers
 
